@@ -30,6 +30,138 @@ pub const FAMILIES: [&str; 12] = ["trunc-eof", "trunc-reset", "subst", "bitflip"
 const HUGE: [&str; 14] = ["0", "1", "65535", "65536", "16777216", "2147483648", "4294967296", "1099511627776", "9223372036854775807", "9223372036854775808", "18446744073709551615", "18446744073709551616", "99999999999999999999", "-1"];
 const HUGE_HEX: [&str; 8] = ["0", "1", "ffff", "10000", "7fffffff", "ffffffff", "7fffffffffffffff", "ffffffffffffffff"];
 
+/// Seed messages of a tier: the fixed ones, and for the thorough tier 96 generated ones per
+/// target (requests from the C02 generator, responses from the response-model generator,
+/// random frame scripts, random JSON texts, random config files), each at most 500 bytes so that
+/// the complete enumeration of every family stays affordable.
+fn seeds_for(target: &str, tier: Tier) -> Vec<Vec<u8>> {
+    let mut v = seeds(target);
+    if tier == Tier::Thorough {
+        v.extend(generated_seeds(target));
+    }
+    v
+}
+
+const GENERATED_SEEDS: usize = 96;
+
+fn gen_json(rng: &mut Rng, depth: u32) -> String {
+    let r = if depth >= 3 { rng.below(5) } else { rng.below(7) };
+    match r {
+        0 => ["null", "true", "false"][rng.usize_below(3)].to_string(),
+        1 => ["0", "-0", "1", "-12", "3.25", "1e5", "1E-3", "2.5e+10", "123456789012", "0.000001"][rng.usize_below(10)].to_string(),
+        2 | 3 => {
+            let n = rng.range(0, 6);
+            let mut t = String::from("\"");
+            for _ in 0..n {
+                t.push_str(["a", "Z", " ", "\\n", "\\\"", "\\\\", "\\u00e9", "\\ud83d\\ude00", "\u{e9}", "\u{4e2d}", "\\/", "\\t", "0"][rng.usize_below(13)]);
+            }
+            t.push('"');
+            t
+        }
+        4 => "[]".to_string(),
+        5 => {
+            let n = rng.range(1, 4);
+            let ws = if rng.chance(1, 3) { " " } else { "" };
+            format!("[{}{}{}]", ws, (0..n).map(|_| gen_json(rng, depth + 1)).collect::<Vec<_>>().join(if rng.chance(1, 2) { ", " } else { "," }), ws)
+        }
+        _ => {
+            let n = rng.range(0, 3);
+            format!("{{{}}}", (0..n).map(|i| format!("\"k{}\":{}{}", i, if rng.chance(1, 3) { " " } else { "" }, gen_json(rng, depth + 1))).collect::<Vec<_>>().join(","))
+        }
+    }
+}
+
+fn gen_config(rng: &mut Rng) -> String {
+    let mut t = String::new();
+    if rng.chance(1, 3) {
+        t.push_str("# generated\n\n");
+    }
+    t.push_str("server {\n");
+    let val = |rng: &mut Rng| -> String {
+        match rng.below(6) {
+            0 => format!("\"{}\"", ["0.0.0.0", "a b", "/var/www", "x", "127.0.0.1:9000,127.0.0.1:9001", "caf\u{e9}"][rng.usize_below(6)]),
+            1 => rng.range(0, 70000).to_string(),
+            2 => ["true", "false"][rng.usize_below(2)].to_string(),
+            3 => format!("{}{}", rng.range(1, 900), ["K", "M", "G"][rng.usize_below(3)]),
+            4 => "\"\"".to_string(),
+            _ => format!("\"{}\" # note", rng.range(0, 99)),
+        }
+    };
+    let n = rng.range(1, 6);
+    for _ in 0..n {
+        match rng.below(6) {
+            0 => t.push_str(&format!("  {} {}\n", ["address", "port", "threads", "timeout", "websocket"][rng.usize_below(5)], val(rng))),
+            1 => {
+                t.push_str(&format!("  {} {{\n", ["cache", "log", "blacklist", "plugins"][rng.usize_below(4)]));
+                for _ in 0..rng.range(0, 3) {
+                    t.push_str(&format!("    {} {}\n", ["size", "time", "level", "console", "mode", "file"][rng.usize_below(6)], val(rng)));
+                }
+                t.push_str("  }\n");
+            }
+            2 | 3 => {
+                let pats = ["/*", "/api/*", "/a, /b/*", "/static/*,/s/*", "/x"];
+                t.push_str(&format!("  route {} {{\n    {} {}\n  }}\n", pats[rng.usize_below(5)], ["directory", "file", "proxy", "redirect", "load_balancer_mode"][rng.usize_below(5)], val(rng)));
+            }
+            4 => {
+                t.push_str(&format!("  host {} {{\n    route /* {{\n      directory {}\n    }}\n  }}\n", ["\"*.example.com\"", "localhost", "\"a\""][rng.usize_below(3)], val(rng)));
+            }
+            _ => t.push('\n'),
+        }
+    }
+    t.push_str("}\n");
+    t
+}
+
+fn generated_seeds(target: &str) -> Vec<Vec<u8>> {
+    static CACHE: OnceLock<Mutex<std::collections::BTreeMap<String, Vec<Vec<u8>>>>> = OnceLock::new();
+    let c = CACHE.get_or_init(|| Mutex::new(Default::default()));
+    if let Some(v) = c.lock().unwrap().get(target) {
+        return v.clone();
+    }
+    let mut rng = Rng::new(humsim::rng::mix(&[0xC03, fnv64(target.as_bytes())]));
+    let mut out = Vec::new();
+    let mut guard = 0;
+    while out.len() < GENERATED_SEEDS && guard < 10_000 {
+        guard += 1;
+        let m: Vec<u8> = match target {
+            "request" => crate::props::c02::gen_model(&mut rng, Tier::Quick).render(),
+            "response" => crate::refs::http::gen_resp_model(&mut rng, 64).render(),
+            "frame" | "wsmsg" => {
+                let n = rng.range(1, 4);
+                let mut b = Vec::new();
+                for i in 0..n {
+                    let opcode = [1u8, 2, 0, 9, 10, 8][rng.usize_below(6)];
+                    let len = match rng.below(4) {
+                        0 => 0,
+                        1 => rng.range(1, 20),
+                        2 => rng.range(120, 130),
+                        _ => rng.range(126, 300),
+                    } as usize;
+                    let len = if opcode >= 8 { len.min(125) } else { len };
+                    let mut f = crate::refs::ws::RFrame::new(opcode, rng.bytes(len));
+                    f.fin = opcode >= 8 || rng.chance(2, 3);
+                    if rng.chance(2, 3) {
+                        f.mask = Some((rng.next_u64() as u32).to_be_bytes());
+                    }
+                    b.extend(f.encode());
+                    if opcode == 8 && i + 1 < n {
+                        break;
+                    }
+                }
+                b
+            }
+            "json" => gen_json(&mut rng, 0).into_bytes(),
+            "config" => gen_config(&mut rng).into_bytes(),
+            _ => vec![],
+        };
+        if m.len() >= 2 && m.len() <= 500 {
+            out.push(m);
+        }
+    }
+    c.lock().unwrap().insert(target.to_string(), out.clone());
+    out
+}
+
 fn seeds(target: &str) -> Vec<Vec<u8>> {
     match target {
         "request" => vec![
@@ -207,7 +339,7 @@ fn short_strings(target: &str) -> Vec<Vec<u8>> {
 pub fn units(tier: Tier) -> Vec<Unit> {
     let mut v = Vec::new();
     for t in TARGETS {
-        for (si, s) in seeds(t).iter().enumerate() {
+        for (si, s) in seeds_for(t, tier).iter().enumerate() {
             for f in FAMILIES {
                 let n = n_cases(t, s, f, tier);
                 if n == 0 {
@@ -514,7 +646,7 @@ impl Prop for C03 {
         false
     }
     fn rule(&self) -> &'static str {
-        "Per target (HTTP request parser, HTTP response parser, WebSocket frame decoder, WebSocket message reader blocking and non-blocking over a simulated socket, JSON parser, config parser incl. include files) and per seed message, the fault families are enumerated completely: EOF at EVERY offset, ConnectionReset at every offset, every single-byte substitution from a 16-symbol protocol alphabet at every offset, every single bit flip, each CR/LF/colon/space/comma/brace/quote deleted and doubled, every contiguous span of 1..24 bytes deleted at every offset, every number in the message replaced by 22 boundary and huge decimal/hex values (frames: 14 claimed lengths up to 2^64-1 with 10 bytes of data), a 2/3/4-byte UTF-8 character and an invalid byte inserted at every position, nesting to depth 100000, all strings of up to 3-4 tokens over the protocol alphabets (config: additionally all strings of up to 4 tokens inside an open `server {` section), plus seeded random edits; each case delivered all-at-once and one byte per read. Distinct non-trivial = distinct (target, seed, family, case) that differs from the valid seed; evaluations = parser calls."
+        "Per target (HTTP request parser, HTTP response parser, WebSocket frame decoder, WebSocket message reader blocking and non-blocking over a simulated socket, JSON parser, config parser incl. include files) and per seed message (2..6 fixed ones per target; the thorough tier adds 96 generated ones per target: requests, responses, frame scripts, JSON texts and config files of at most 500 bytes), the fault families are enumerated completely: EOF at EVERY offset, ConnectionReset at every offset, every single-byte substitution from a 16-symbol protocol alphabet at every offset, every single bit flip, each CR/LF/colon/space/comma/brace/quote deleted and doubled, every contiguous span of 1..24 bytes deleted at every offset, every number in the message replaced by 22 boundary and huge decimal/hex values (frames: 14 claimed lengths up to 2^64-1 with 10 bytes of data), a 2/3/4-byte UTF-8 character and an invalid byte inserted at every position, nesting to depth 100000, all strings of up to 3-4 tokens over the protocol alphabets (config: additionally all strings of up to 4 tokens inside an open `server {` section), plus seeded random edits; each case delivered all-at-once and one byte per read. Distinct non-trivial = distinct (target, seed, family, case) that differs from the valid seed; evaluations = parser calls."
     }
     fn assumptions(&self) -> Vec<String> {
         vec![
@@ -548,7 +680,7 @@ impl Prop for C03 {
         let target = TARGETS.iter().find(|t| scn["target"] == **t).copied().unwrap_or("request");
         let family = FAMILIES.iter().find(|t| scn["family"] == **t).copied().unwrap_or("trunc-eof");
         let tier = if scn["tier"] == "thorough" { Tier::Thorough } else { Tier::Quick };
-        let all = seeds(target);
+        let all = seeds_for(target, tier);
         let seed = all[(scn["seed_msg"].as_u64().unwrap_or(0) as usize) % all.len()].clone();
         let total = n_cases(target, &seed, family, tier);
         let part = scn["part"].as_u64().unwrap_or(0) as usize;
@@ -671,7 +803,7 @@ impl Prop for C03 {
 pub fn case_feature(scn: &Value) -> String {
     let target = TARGETS.iter().find(|t| scn["target"] == **t).copied().unwrap_or("request");
     let family = FAMILIES.iter().find(|t| scn["family"] == **t).copied().unwrap_or("trunc-eof");
-    let all = seeds(target);
+    let all = seeds_for(target, if scn["tier"] == "thorough" { Tier::Thorough } else { Tier::Quick });
     let seed = all[(scn["seed_msg"].as_u64().unwrap_or(0) as usize) % all.len()].clone();
     let k = match scn["only_case"].as_u64() {
         Some(k) => k as usize / 2,
